@@ -338,3 +338,38 @@ func FieldLoadDef(v ssa.Value) ssa.Value {
 	}
 	return found.Val
 }
+
+// FlowsToReturn reports a Return that value v reaches directly, through value-preserving
+// wrappers, or through a local result cell (go/ssa spills results to a cell in functions with defer).
+func FlowsToReturn(v ssa.Value) *ssa.Return {
+	seen := map[ssa.Value]bool{}
+	var walk func(v ssa.Value, depth int) *ssa.Return
+	walk = func(v ssa.Value, depth int) *ssa.Return {
+		if seen[v] || depth > 8 {
+			return nil
+		}
+		seen[v] = true
+		for _, r := range Referrers(v) {
+			switch x := r.(type) {
+			case *ssa.Return:
+				return x
+			case *ssa.Store:
+				if x.Val == v && IsLocalCell(x.Addr) {
+					for _, ref := range CellRefs(x.Addr) {
+						if ld, ok := ref.(*ssa.UnOp); ok && ld.Op == token.MUL {
+							if ret := walk(ld, depth+1); ret != nil {
+								return ret
+							}
+						}
+					}
+				}
+			case *ssa.ChangeType, *ssa.MakeInterface, *ssa.ChangeInterface, *ssa.Phi:
+				if ret := walk(x.(ssa.Value), depth+1); ret != nil {
+					return ret
+				}
+			}
+		}
+		return nil
+	}
+	return walk(v, 0)
+}
